@@ -115,6 +115,9 @@ def gen_playback_test(top, profile, h, log_path):
            "--target-dir", target]
     if profile == "k64r":
         cmd += ["--no-overflow-checks"]
+    fs = os.environ.get("VERIF_FS_ARRAY", "1024")
+    if fs != "0":
+        cmd += ["--cbmc-args", "--max-field-sensitivity-array-size", fs]
     p = subprocess.run(cmd, cwd=crate, env=kanirun.base_env(profile), stdout=subprocess.PIPE,
                        stderr=subprocess.STDOUT, text=True)
     with open(log_path, "a") as fh:
